@@ -2,6 +2,8 @@ package main
 
 import (
 	"fmt"
+	"go/ast"
+	"go/constant"
 	"go/token"
 	"go/types"
 	"sort"
@@ -89,6 +91,7 @@ func runC08(c *Ctx, r *Report) {
 	r.Rule("C08.R4", "optional children: a child field that some parse path leaves nil in a returned node is tested for nil before the printers dereference it")
 	r.Rule("C08.R5", "possibly-nil nodes inside the parser: a method is invoked on an element of a parsed list or on a parse result only after a nil test")
 	r.Rule("C08.R6", "comment terminators agree with the tokenizer: every byte on which readLineComment stops (notEOL false) is either a newline that skipWhitespace records, or makes NextToken return the end marker on every path; otherwise the parser's line-comment assertion (next token is on another line or is the end marker) is reachable")
+	r.Rule("C08.R7", "fixed-length operands: an index or slice bound applied to an operand whose length is a compile-time constant (array, pointer to array, string constant, package-level slice/string initialised once from a literal) is bounded by that length: by its type (a byte indexes 256 entries), or by a dominating comparison with a constant; generated files (stringer) are skipped")
 	r.Rule("C16.R4", "(shared) the end marker is sticky")
 
 	pi := c.parserInfo()
@@ -284,6 +287,9 @@ func runC08(c *Ctx, r *Report) {
 			}
 		}
 	}
+
+	// ---- R7 ----
+	c.checkFixedLengthOperands(r, "C08.R7", map[string]bool{"ast": true, "lexer": true, "parser": true, "token": true, "trie": true})
 
 	// shared: sticky end marker
 	sub := NewReport("C16", r.Tier, c)
@@ -1120,4 +1126,184 @@ func init() {
 		assume:  []string{"termination of the parser's recursion (as opposed to its loops) follows from each recursive call consuming input, which is not checked here", "the printers' panic on an unknown precedence is covered under C02.R3"},
 		run:     runC08,
 	})
+}
+
+// checkFixedLengthOperands: see rule C08.R7.
+func (c *Ctx) checkFixedLengthOperands(r *Report, rule string, pkgs map[string]bool) {
+	generated := map[string]bool{}
+	for _, p := range c.Mod {
+		for _, f := range p.Syntax {
+			generated[c.Fset.Position(f.Pos()).Filename] = ast.IsGenerated(f)
+		}
+	}
+	// package-level slices/strings written exactly once, with a constant-length value
+	globalLen := map[*ssa.Global]int64{}
+	writes := map[*ssa.Global]int{}
+	writers := c.ModuleSSAFuncs()
+	for _, p := range c.Mod {
+		if sp := c.SSA().Package(p.Types); sp != nil {
+			if ini := sp.Func("init"); ini != nil && ini.Blocks != nil {
+				writers = append(writers, ini) // the synthetic package initialiser holds the variable initialisers
+			}
+		}
+	}
+	for _, fn := range writers {
+		eachInstr(fn, func(in ssa.Instruction) {
+			st, ok := in.(*ssa.Store)
+			if !ok {
+				return
+			}
+			g, ok := st.Addr.(*ssa.Global)
+			if !ok {
+				return
+			}
+			writes[g]++
+			if n, ok := constLenOf(st.Val); ok && fn.Name() == "init" {
+				globalLen[g] = n
+			} else {
+				writes[g] += 2
+			}
+		})
+	}
+	// globals whose address is taken otherwise (passed around) are not tracked
+	n := 0
+	for _, fn := range c.ModuleSSAFuncs() {
+		if fn.Pkg == nil || !pkgs[shortPkg(fn.Pkg.Pkg)] {
+			continue
+		}
+		if generated[c.Fset.Position(fn.Pos()).Filename] {
+			continue
+		}
+		fname := ssaFuncName(fn)
+		counts := map[string]int{}
+		eachInstr(fn, func(in ssa.Instruction) {
+			var operand ssa.Value
+			type bound struct {
+				v      ssa.Value
+				strict bool
+				what   string
+			}
+			var bounds []bound
+			switch x := in.(type) {
+			case *ssa.IndexAddr:
+				operand, bounds = x.X, []bound{{x.Index, true, "index"}}
+			case *ssa.Index:
+				operand, bounds = x.X, []bound{{x.Index, true, "index"}}
+			case *ssa.Lookup:
+				if _, isStr := x.X.Type().Underlying().(*types.Basic); isStr {
+					operand, bounds = x.X, []bound{{x.Index, true, "index"}}
+				}
+			case *ssa.Slice:
+				operand = x.X
+				if x.Low != nil {
+					bounds = append(bounds, bound{x.Low, false, "low bound"})
+				}
+				if x.High != nil {
+					bounds = append(bounds, bound{x.High, false, "high bound"})
+				}
+			}
+			if operand == nil {
+				return
+			}
+			var length int64 = -1
+			origin := ""
+			t := operand.Type().Underlying()
+			if p, ok := t.(*types.Pointer); ok {
+				t = p.Elem().Underlying()
+			}
+			if a, ok := t.(*types.Array); ok {
+				length, origin = a.Len(), fmt.Sprintf("array of %d", a.Len())
+			} else if k, ok := constLenOf(operand); ok {
+				length, origin = k, fmt.Sprintf("constant of length %d", k)
+			} else if ld, ok := operand.(*ssa.UnOp); ok && ld.Op == token.MUL {
+				if g, ok := ld.X.(*ssa.Global); ok && writes[g] == 1 {
+					if k, ok := globalLen[g]; ok {
+						length, origin = k, fmt.Sprintf("package-level %s of length %d", g.Name(), k)
+					}
+				}
+			}
+			if length < 0 {
+				return
+			}
+			for _, bd := range bounds {
+				if _, isConst := bd.v.(*ssa.Const); isConst {
+					continue // the compiler rejects constant indices out of range of arrays/constants
+				}
+				n++
+				kind := bd.what + " into " + strings.SplitN(origin, " of length", 2)[0]
+				counts[kind]++
+				desc := fmt.Sprintf("%s #%d is bounded by the fixed length", kind, counts[kind])
+				limit := length
+				ok, how := false, ""
+				if bt, isBasic := stripConvert(bd.v).Type().Underlying().(*types.Basic); isBasic {
+					var max int64 = -1
+					switch bt.Kind() {
+					case types.Uint8:
+						max = 255
+					case types.Uint16:
+						max = 65535
+					}
+					if max >= 0 && ((bd.strict && max < limit) || (!bd.strict && max <= limit)) {
+						ok, how = true, "by type: "+bt.Name()
+					}
+				}
+				if !ok && constUpper(bd.v, in.Block(), limit, bd.strict) {
+					ok, how = true, "by a dominating comparison with a constant"
+				}
+				if !ok {
+					// x - k / x + k with a constant bound on x
+					if bin, isBin := stripConvert(bd.v).(*ssa.BinOp); isBin {
+						if k, isK := constInt(bin.Y); isK {
+							switch bin.Op {
+							case token.SUB:
+								if k >= 0 && constUpper(bin.X, in.Block(), limit+k, bd.strict) {
+									ok, how = true, "by a dominating comparison of the minuend with a constant"
+								}
+							case token.ADD:
+								if constUpper(bin.X, in.Block(), limit-k, bd.strict) {
+									ok, how = true, "by a dominating comparison of the addend with a constant"
+								}
+							}
+						}
+					}
+				}
+				if ok {
+					r.OkWhy(rule, fname, desc, c.Pos(in.Pos()), how)
+				} else {
+					r.Fail(rule, fname, desc, c.Pos(in.Pos()), fmt.Sprintf("the %s (%s) is not bounded by the operand's fixed length %d (%s): for a large enough value the operation panics (index / slice bounds out of range)", bd.what, bd.v.String(), length, origin))
+				}
+			}
+		})
+	}
+	if n == 0 {
+		r.Undecided("%s: no index/slice into a fixed-length operand found (expected the trie's 256-entry child tables)", rule)
+	}
+	r.Floor(rule, 6)
+}
+
+// constLenOf: the value is a string constant, or a []byte/[]rune conversion / slice of one.
+func constLenOf(v ssa.Value) (int64, bool) {
+	switch x := v.(type) {
+	case *ssa.Const:
+		if x.Value != nil && x.Value.Kind() == constant.String {
+			return int64(len(constant.StringVal(x.Value))), true
+		}
+	case *ssa.Convert:
+		if k, ok := x.X.(*ssa.Const); ok && k.Value != nil && k.Value.Kind() == constant.String {
+			if sl, ok := x.Type().Underlying().(*types.Slice); ok {
+				if b, ok := sl.Elem().Underlying().(*types.Basic); ok && b.Kind() == types.Uint8 {
+					return int64(len(constant.StringVal(k.Value))), true
+				}
+			}
+		}
+	case *ssa.Slice:
+		if x.Low == nil && x.High == nil {
+			if p, ok := x.X.Type().Underlying().(*types.Pointer); ok {
+				if a, ok := p.Elem().Underlying().(*types.Array); ok {
+					return a.Len(), true
+				}
+			}
+		}
+	}
+	return 0, false
 }
